@@ -149,6 +149,61 @@ def near_miss_set(rng, bases, n):
     return out
 
 
+# ------------------------------------------------------------------------------------------------ raw tar read-back
+def raw_tar_members(raw):
+    """[(member name bytes exactly as stored, type flag byte)] parsed from the 512-byte records themselves: no
+    normalisation of any kind (tarfile strips trailing slashes and decodes names).  ustar prefix field, GNU 'L'
+    long-name records and the pax 'path' keyword are honoured.  Raises ValueError on a damaged archive."""
+    out, off, longname, paxpath = [], 0, None, None
+    while off + 512 <= len(raw):
+        h = raw[off:off + 512]
+        if h == b"\0" * 512:
+            break
+        stored = int(h[148:156].strip(b"\0 ") or b"0", 8)
+        if sum(h[:148]) + 8 * 32 + sum(h[156:]) != stored:
+            raise ValueError("bad header checksum at offset %d" % off)
+        name = h[0:100].split(b"\0", 1)[0]
+        prefix = h[345:500].split(b"\0", 1)[0] if h[257:263] == b"ustar\0" else b""
+        typ = h[156:157]
+        size = int.from_bytes(h[125:136], "big") if h[124] & 0x80 else int(h[124:136].strip(b"\0 ") or b"0", 8)
+        data = raw[off + 512:off + 512 + size]
+        if len(data) != size:
+            raise ValueError("truncated member at offset %d" % off)
+        off += 512 + ((size + 511) // 512) * 512
+        if typ == b"L":
+            longname = data.split(b"\0", 1)[0]
+            continue
+        if typ in (b"x", b"X"):
+            pos = 0
+            while pos < len(data):
+                sp = data.index(b" ", pos)
+                ln = int(data[pos:sp])
+                rec = data[sp + 1:pos + ln - 1]
+                pos += ln
+                k, _, v = rec.partition(b"=")
+                if k == b"path":
+                    paxpath = v
+            continue
+        if typ in (b"g", b"K"):
+            continue
+        full = paxpath if paxpath is not None else longname if longname is not None else (prefix + b"/" + name if prefix else name)
+        out.append((full, typ))
+        longname = paxpath = None
+    else:
+        raise ValueError("no end-of-archive record")
+    return out
+
+
+def hostile_member(name, typ):
+    """the property's clauses on an emitted member name: a clean relative path, i.e. no '..', '.' or empty component
+    (= the name differs from its canonical form or canonicalisation refuses it; specCanon in plain Python, the same
+    function ask_model cross-checks against the Lean model).  A directory member carries one trailing slash."""
+    if typ == b"5" and name.endswith(b"/"):
+        name = name[:-1]
+    cs = name.split(b"/")
+    return name == b"" or any(c in (b"", b".", b"..") for c in cs)
+
+
 # ------------------------------------------------------------------------------------------------ evaluation record
 class Eval:
     def __init__(self, probe, kind, inp, expected, observed, ok, detail=""):
@@ -746,6 +801,47 @@ class Funnel:
             self.add("sane_describe", "reject", name, "refused", "refused" if self.refused(rc) and not names else "rc=%d names=%r" % (rc, names),
                      self.refused(rc) and not names, err)
 
+    def probe_sane_s2t(self, kind, name):
+        """sqfs2tar on the same forged image as probe_sane (d1/<name> file, d2/<name>/in directory): three runs - plain,
+        `-r c18r/t` (prefix prepended), `-d c18d2` (prefix stripped).  The archive is parsed from its raw records.
+        Oracle 1 (hostile): no emitted member name has a '..', '.' or empty component.  Oracle 2: the tool either
+        refuses the image, or writes exactly the entries whose names the model's isFilenameSane accepts (whether it says
+        so on stderr is recorded, not judged: lib/sqfs/src/io/dir_rec.c drops a literal '.'/'..' silently)."""
+        N = sqfs_forge.Node
+        sane = self.sane[name]
+        root = N(b"", "d", children=[N(b"c18d1", "d", children=[N(name, "f", payload=b"payload\n"), N(b"sib", "f", payload=b"s\n")]),
+                                     N(b"c18d2", "d", children=[N(name, "d", children=[N(b"in", "f", payload=b"i\n")]), N(b"sib", "f", payload=b"s\n")])])
+        img = self.tmp(".sqfs")
+        img.write_bytes(sqfs_forge.forge(root))
+        d1 = [(b"c18d1/", b"5"), (b"c18d1/sib", b"0")] + ([(b"c18d1/" + name, b"0")] if sane else [])
+        d2 = [(b"c18d2/", b"5"), (b"c18d2/sib", b"0")] + ([(b"c18d2/" + name + b"/", b"5"), (b"c18d2/" + name + b"/in", b"0")] if sane else [])
+        runs = [("plain", [], sorted(d1 + d2)),
+                ("root", ["-r", "c18r/t"], sorted([(b"c18r/t/", b"5")] + [(b"c18r/t/" + n, t) for n, t in d1 + d2])),
+                ("subdir", ["-d", "c18d2"], sorted((n[len(b"c18d2/"):], t) for n, t in d2 if n != b"c18d2/"))]
+        bad, seen = [], {}
+        for tag, opts, exp in runs:
+            rc, out, err = self.run([self.s2t] + opts + [img])
+            if self.crashed(rc):
+                bad.append("%s: crash rc=%d" % (tag, rc))
+                seen[tag] = "crash rc=%d %s" % (rc, err[-200:].decode(errors="replace"))
+                continue
+            try:
+                mem = raw_tar_members(out)
+            except ValueError as e:
+                if rc == 0:
+                    bad.append("%s: unreadable archive (%s)" % (tag, e))
+                mem = []
+            seen[tag] = (rc, sorted(mem), err[-120:])
+            host = sorted(n for n, t in mem if hostile_member(n, t))
+            if host:
+                bad.append("%s: hostile member name(s) %r" % (tag, host))
+            if self.refused(rc) and not sane:
+                continue                                    # refusing a forged image is a correct answer
+            if rc != 0 or sorted(mem) != exp:
+                bad.append("%s: rc=%d members %r, expected %r" % (tag, rc, sorted(mem), exp))
+        self.add("sane_s2t", "accept" if sane else "reject", name, "no hostile member name; exactly the sane entries, or refused",
+                 "ok" if not bad else "; ".join(bad), not bad, repr(seen))
+
     def probe_fixture(self):
         """corpus: the repository's own hostile image bin/rdsquashfs/test/pathtraversal.sqfs, when the working tree
         still has it (its absence is recorded, not hidden: the forged images above carry the S-site probes)"""
@@ -775,7 +871,7 @@ class Funnel:
             return [e for e in self.evals if e.probe == probe]
         if probe.startswith("sane_"):
             self.ask_model([b"x"], [inp])
-            self.probe_sane("name", inp)
+            (self.probe_sane_s2t if probe == "sane_s2t" else self.probe_sane)("name", inp)
             return [e for e in self.evals if e.probe == probe]
         self.ask_model([inp] if not probe.startswith("b_") and not probe.startswith("fixture") else [b"x"], [])
         self.make_reference()
@@ -841,6 +937,8 @@ class Funnel:
         for name in self.A_PROBES + ["sane"]:
             for kind, s in cases[name]:
                 jobs.append((getattr(self, "probe_" + name), (kind, s)))
+        for kind, s in cases["sane"]:
+            jobs.append((self.probe_sane_s2t, (kind, s)))
         for T in self.trees:
             for b in ("probe_b_gensquashfs_dir", "probe_b_glob", "probe_b_sortmatch", "probe_b_unpack", "probe_b_describe", "probe_b_sqfsdiff"):
                 jobs.append((getattr(self, b), (T,)))
@@ -878,5 +976,6 @@ COVER = {
     "bin/rdsquashfs/src/restore_fstree.c:create_node_dfs:is_filename_sane#0": (["sane_unpack"], "S"),
     "bin/rdsquashfs/src/restore_fstree.c:set_attribs:is_filename_sane#0": (["sane_unpack"], "S"),
     "bin/rdsquashfs/src/describe.c:describe_tree:is_filename_sane#0": (["sane_describe"], "S"),
+    "bin/sqfs2tar/src/iterator.c:sane_next:is_filename_sane#0": (["sane_s2t"], "S"),
 }
 DEFINING_FILES = ("lib/util/src/canonicalize_name.c", "lib/util/src/filename_sane.c")
